@@ -487,6 +487,24 @@ func (e *Engine) writeReplay(prop string, res *FuncResult, g *Goal, o runOpts) r
 				conf, why = e.confirmPost(res, g, w, out, o)
 				rp["confirmation"] = why
 			}
+			if !conf && (g.Kind == "inv-keep" || g.Kind == "inv-init") && res.Fn != nil && g.Func == fnKey(res.Fn) && strings.Contains(out, "GVC-DONE") {
+				// a loop-invariant counterexample: run the function on the model's inputs and
+				// evaluate the function's own postconditions on the observed execution
+				for _, pg := range res.Goals {
+					if pg.Kind != "post" || (pg.Func != fnKey(res.Fn) && pg.Func != res.Key) {
+						continue
+					}
+					ok, why := e.confirmPost(res, pg, w, out, o)
+					if os.Getenv("GVC_DEBUG") != "" {
+						fmt.Println("confirm via post", pg.Name, ok, why)
+					}
+					if ok {
+						conf = true
+						rp["confirmation"] = "inputs of the invariant counterexample violate postcondition " + pg.Name + " on the real code: " + why
+						break
+					}
+				}
+			}
 			rp["replay_output"] = truncate(out, 4000)
 			rp["confirmed_on_real_code"] = conf
 			confirmed = conf
